@@ -419,6 +419,7 @@ theorem bytesEscape_eq (b : List Nat) (hb : ∀ x ∈ b, x < 256) :
       unfold bytesQuote at hq
       have : b.contains 34 = true := by simpa using hx
       simp [this] at hq
+      exact hq.2 hx
     simp only [hq, if_true]
     exact escapeQuotes_flatMap b hb h34
   · have : bytesQuote b = 39 := by
@@ -2464,14 +2465,15 @@ theorem display_eq_render (items : List Item) (h : ∀ it ∈ items, Char.ofNat 
     | wbr => rfl
     | newline => rfl
 
-/-- `'\x00'` is displayed as `''`: the NUL is handed to `_output` (it is in `render`) and dropped by
-docutils when the text is extracted -/
-theorem nul_dropped_counterexample :
-    (match colorize LT (Cfg.make 0 1 false) (.constStr [Char.ofNat 0]) with
-      | .ok r => (r.isComplete, itemsText r.items)
-      | .error _ => (false, [])) = (true, "''".toList) ∧
-    render LT (.constStr [Char.ofNat 0]) = ['\'', Char.ofNat 0, '\''] := by
-  constructor <;> decide +kernel
+/-- since e938da2 / 257fc5a the text of a string or bytes constant reaches the page unchanged:
+docutils has no NUL to drop (the HISTORICAL witness is `nul_dropped_old_counterexample`) -/
+theorem display_const_full (s : List Char) (b : List Nat) (hb : ∀ x ∈ b, x < 256) :
+    astext (strEscape s) = strEscape s ∧ astext (bytesEscape b) = bytesEscape b :=
+  ⟨astext_id _ (strEscape_no_nul s), astext_id _ (bytesEscape_no_nul b hb)⟩
 
+example :
+    (match colorize LT (Cfg.make 0 1 false) (.constStr [Char.ofNat 0, 'a']) with
+      | .ok r => (r.isComplete, itemsText r.items)
+      | .error _ => (false, [])) = (true, "'\\x00a'".toList) := by decide +kernel
 
 end Pyval
